@@ -154,9 +154,12 @@ func corpus(prop string) []NamedScenario {
 			return mk(prop, st, inboxReq("r0", st.Alice, hostA, body(st)))
 		})
 	}
-	outb := func(name string, o StdOpt, body func(s *Std) J) {
+	outb := func(name string, o StdOpt, body func(s *Std) J, tweak ...func(s *Std)) {
 		add("outbox/"+name, func() *RunSpec {
 			st := newStd(o)
+			for _, tw := range tweak {
+				tw(st)
+			}
 			return mk(prop, st, outboxReq("r0", st.Alice, hostA, body(st)))
 		})
 	}
@@ -193,6 +196,21 @@ func corpus(prop string) []NamedScenario {
 	in("remove", d, func(s *Std) J { return s.act("Remove", J{"object": s.Dave, "target": []string{s.Col1, s.OCol1}}) })
 	in("like", d, func(s *Std) J { return s.act("Like", J{"object": []string{s.Note1, s.Note2, s.RNote}}) })
 	in("announce", d, func(s *Std) J { return s.act("Announce", J{"object": []string{s.Note1, s.RNote}}) })
+	byRef := func(s *Std) {
+		// likes / shares of the stored object are references to separately stored collections
+		a := &s.W.Servers[0]
+		for i := range a.Docs {
+			if a.Docs[i].ID == s.Note1 {
+				a.Docs[i].Doc = mustJSON(J{"@context": asCtx, "type": "Note", "id": s.Note1, "attributedTo": s.Alice.ID, "content": "one",
+					"likes": s.Note1 + "/likes", "shares": s.Note1 + "/shares"})
+			}
+		}
+		a.Docs = append(a.Docs,
+			DocSpec{s.Note1 + "/likes", mustJSON(J{"@context": asCtx, "type": "OrderedCollection", "id": s.Note1 + "/likes", "orderedItems": []string{}})},
+			DocSpec{s.Note1 + "/shares", mustJSON(J{"@context": asCtx, "type": "Collection", "id": s.Note1 + "/shares", "items": []string{}})})
+	}
+	in("like-by-reference", d, func(s *Std) J { return s.act("Like", J{"object": []string{s.Note1}}) }, byRef)
+	in("announce-by-reference", d, func(s *Std) J { return s.act("Announce", J{"object": []string{s.Note1}}) }, byRef)
 	in("undo", d, func(s *Std) J { return s.act("Undo", J{"object": s.RLike}) })
 	in("block", d, func(s *Std) J { return s.act("Block", J{"object": s.Alice.ID}) })
 	in("listen-default", d, func(s *Std) J { return s.act("Listen", J{"object": s.RNote}) })
@@ -212,6 +230,13 @@ func corpus(prop string) []NamedScenario {
 	})
 	outb("note", d, func(s *Std) J {
 		return J{"@context": asCtx, "type": "Note", "content": "hello", "to": []string{s.Dave, s.Bob.ID}, "bcc": s.Erin, "cc": s.Alice.Followers}
+	})
+	outb("note-shared-inbox", d, func(s *Std) J {
+		return J{"@context": asCtx, "type": "Note", "content": "hello", "to": []string{s.Dave, s.Erin, s.Bob.ID}}
+	}, func(s *Std) {
+		// the database knows one (shared) inbox for two of the recipients
+		shared := "https://" + hostR + "/shared/inbox"
+		s.W.Servers[0].StoredInbox = map[string]string{s.Dave: shared, s.Erin: shared}
 	})
 	outb("create", d, func(s *Std) J {
 		return J{"@context": asCtx, "type": "Create", "actor": s.Alice.ID, "to": s.Dave,
